@@ -463,6 +463,19 @@ func runC20(c *Ctx) {
 				good, why = false, "the message is searched although the dictionary lookup failed"
 			}
 		}
+		// every successful answer comes from a walk of the message as it is now: no return that can carry a nil
+		// error is reachable without passing the walk (a remembered earlier result is not the reference walk's)
+		if good {
+			flow.Instrs(f, func(in ssa.Instruction) {
+				ret, ok := in.(*ssa.Return)
+				if !ok || !good || !mayReturnNilError(ret) {
+					return
+				}
+				if p := flow.PathAvoiding(f, nil, func(x ssa.Instruction) bool { return x == ssa.Instruction(ret) }, func(x ssa.Instruction) bool { return x == ssa.Instruction(wcall) }); p != nil {
+					good, why = false, "a result can be returned without walking the message (e.g. from an index of earlier results): after the tree changed it is no longer what a walk finds"
+				}
+			})
+		}
 		r.Check(good, "R4", key, c.pos(wcall), "searches m.AVP for the Code of the dictionary AVP resolved from the argument, only when the lookup succeeded", why)
 	}
 }
